@@ -13,7 +13,7 @@ import (
 
 func init() {
 	register(&propDef{ID: "C08", Run: runC08,
-		Explain: "Structural necessary conditions of 'no network input can crash, wedge or balloon the proxy', decided on the SSA of every function reachable from the socket receive loops and the message loop of /repo: (1) panic-obligations: every index, slice expression, string index, make with a non-constant size, integer division/modulo by a non-constant, unchecked type assertion in that code is proved in range by linear reasoning from the branch conditions that must hold there, range/counting loops, and library contracts (F1 index results, F2 Split >= 1, F3 HasPrefix/HasSuffix lengths, F4 different needles, F5 len of a slice expression, F6 distinct prefix and suffix), with callee summaries for position helpers and an inductive non-negativity analysis; a pointer returned together with an error (or by a constructor that can return nil) is dereferenced only where the error/nil was tested; (2) alloc-bound: no allocation size is network-derived without a dominating constant bound (memory must follow received bytes); (3) discard: the UDP handler runs only when ParseMessage succeeded; on a TCP parse error the connection is closed and the per-connection loop is left; (4) no-exit: no panic, os.Exit, log.Fatal, zap Fatal/Panic/DPanic or Must-style call in that code (a built-in positive example must be recognised); (5) no-recursion: no call cycle among those functions.",
+		Explain:    "Structural necessary conditions of 'no network input can crash, wedge or balloon the proxy', decided on the SSA of every function reachable from the socket receive loops and the message loop of /repo: (1) panic-obligations: every index, slice expression, string index, make with a non-constant size, integer division/modulo by a non-constant, unchecked type assertion in that code is proved in range by linear reasoning from the branch conditions that must hold there, range/counting loops, and library contracts (F1 index results, F2 Split >= 1, F3 HasPrefix/HasSuffix lengths, F4 different needles, F5 len of a slice expression, F6 distinct prefix and suffix), with callee summaries for position helpers and an inductive non-negativity analysis; a pointer returned together with an error (or by a constructor that can return nil) is dereferenced only where the error/nil was tested; (2) alloc-bound: no allocation size is network-derived without a dominating constant bound (memory must follow received bytes); (3) discard: the UDP handler runs only when ParseMessage succeeded; on a TCP parse error the connection is closed and the per-connection loop is left; (4) no-exit: no panic, os.Exit, log.Fatal, zap Fatal/Panic/DPanic or Must-style call in that code (a built-in positive example must be recognised); (5) no-recursion: no call cycle among those functions.",
 		NotDecided: "stalls caused by blocking system calls on the loop thread (DNS lookups, dials and writes without deadlines), CPU time, resident-set size; nil-safety of plain field loads (assumed non-nil by construction)."})
 }
 
@@ -43,6 +43,7 @@ func runC08(c *Ctx) {
 	c08Discard(c)
 	c08NoExit(c)
 	c08NoRecursion(c)
+	c09LockOrder(c) // a lock re-acquired while held, or a lock cycle, stalls the message loop (rule name "lock-order")
 	if c.Tier == "thorough" && bceFile != "" {
 		c08BCECrossCheck(c)
 	}
@@ -68,9 +69,9 @@ func c08BCECrossCheck(c *Ctx) {
 	reach := w.networkReachable()
 	// function extents
 	type ext struct {
-		file       string
-		from, to   int
-		fn         *ssa.Function
+		file     string
+		from, to int
+		fn       *ssa.Function
 	}
 	var exts []ext
 	for _, fn := range w.All {
@@ -136,7 +137,7 @@ func c08BCECrossCheck(c *Ctx) {
 
 // named assumptions: single constructs whose range is guaranteed by configuration, not by code
 var c08Assumed = map[string]string{
-	"ProxyItem.transports[0]": "every `listens` entry configures a UDP or TCP port, and listener transports are never removed (IsExit() is false for a listening transport because its conn is nil)",
+	"ProxyItem.transports[0]":       "every `listens` entry configures a UDP or TCP port, and listener transports are never removed (IsExit() is false for a listening transport because its conn is nil)",
 	"NewTCPServerTransportWithConn": "net.SplitHostPort(conn.LocalAddr().String()) does not fail for an established TCP connection, so the constructor does not return nil",
 	"NewUDPClientTransportWithConn": "net.ResolveUDPAddr(\"udp\", conn.LocalAddr().String()) does not fail for a bound UDP socket, so the constructor does not return nil",
 }
